@@ -13,13 +13,31 @@ What is extracted (every run, from the current source):
   * the three splitting helpers (first / sequence / fixed vertices / distinctness filter);
   * cylinder: tolerance literal and the per-sector loop bodies of the long / medium / short
     classes; capsule: the cap-loop and barrel-loop bodies.
-Any unexpected shape raises TablesError (the check then reports the dependent
-obligations as broken).  The file is only rewritten when its content changes.
+Everything else is PINNED: every function of the module (and the CylinderClass enum) is
+compared as a whole with the text REFERENCE below, which is the code Model/TetMesh.v
+transliterates (normalised: no docstrings / comments / blank lines; the tables listed above
+are replaced by the placeholder `__TABLE__`).  So the icosphere prologue (array size, zero
+initialisation), the sphere / ellipsoid wrappers, the box corner / medial loop nests, the
+cylinder class dispatch and the order in which vertices are appended (hence the `2 + 2n`
+vertex ids of the model), the capsule vertex loops, function signatures, defaults and
+decorators cannot change unnoticed.  The module may contain only the three imports, the 13
+modelled functions and the enum, each bound once.
+
+Any unexpected shape raises TablesError - also when the reader itself trips over the source
+(IndexError, ...): the check then reports ALL obligations as broken, does not count the
+theorems, marks the model runs as runs of a stale model and searches for a failing input.
+The file is only rewritten when its content changes.
+
+Limits: the pin is syntactic (ast equality after the normalisation above), so a harmless
+refactoring is refused too; it does not look outside this file (numpy / math themselves,
+RigidBody.make_* in _rigid_body.py, _mesh_processing.py are tied by the bit-exact model run
+only); the reference is the code at the time Model/TetMesh.v was audited against it.
 """
 import ast
 from pathlib import Path
 
 from .tables import TablesError
+from . import tables_pin as tp
 
 SRC = Path("distance3d") / "hydroelastic_contact" / "_tetra_mesh_creation.py"
 
@@ -140,7 +158,7 @@ def _dyadic(x, what):
 
 
 # ------------------------------------------------------------------ icosphere
-def _read_icosphere(fn):
+def _read_icosphere(fn, holes):
     what = "make_triangular_icosphere"
     b = _body(fn)
     _same(_assign_to(b, "f", what), "f = (1 + 5 ** 0.5) / 2", what)
@@ -152,7 +170,9 @@ def _read_icosphere(fn):
     _same(vt[0].targets[0], "vertices[:12]", what)
     sym = {"0": "IC0", "1": "IC1", "-1": "ICm1", "f": "ICf", "-f": "ICmf"}
     verts = []
-    for r in _rows(_np_array_call(vt[0].value, what + " vertex table"), 3, what + " vertex table"):
+    vlist = _np_array_call(vt[0].value, what + " vertex table")
+    holes.append(vlist)
+    for r in _rows(vlist, 3, what + " vertex table"):
         row = []
         for e in r:
             s = ast.unparse(e).replace(" ", "")
@@ -166,10 +186,12 @@ def _read_icosphere(fn):
                   and isinstance(s.targets[0], ast.Name) and s.targets[0].id == "triangles"]
     if len(tri_assign) != 1:
         raise TablesError(f"{what}: expected one top-level assignment to triangles")
+    tlist = _np_array_call(tri_assign[0].value, what + " triangle table", dtype="int")
+    holes.append(tlist)
     tris = [[_nat(_num(e, what), what + " triangle table") for e in r]
-            for r in _rows(_np_array_call(tri_assign[0].value, what + " triangle table", dtype="int"), 3,
-                           what + " triangle table")]
+            for r in _rows(tlist, 3, what + " triangle table")]
     vfirst = _assign_to(b, "v", what)
+    holes.append(vfirst.value)
     first_new = _nat(_num(vfirst.value, what), what + " v")
     if first_new != len(verts):
         raise TablesError(f"{what}: v = {first_new} but {len(verts)} base vertices")
@@ -222,6 +244,7 @@ def _read_icosphere(fn):
                 and all(isinstance(x, ast.Name) and x.id in ("v1", "v2", "v3") for x in s.value.args[:2])):
             raise TablesError(f"{what}: unexpected midpoint statement `{ast.unparse(s)}`")
         mids.append((pos[s.value.args[0].id], pos[s.value.args[1].id]))
+        holes += s.value.args[:2]
     _same(ib[4], "t = k * 4", what)
     kids = []
     for off, s in enumerate(ib[5:9]):
@@ -231,6 +254,7 @@ def _read_icosphere(fn):
                 and all(isinstance(x, ast.Name) and x.id in pos for x in s.value.elts)):
             raise TablesError(f"{what}: unexpected child triangle statement `{ast.unparse(s)}`")
         kids.append(tuple(pos[x.id] for x in s.value.elts))
+        holes.append(s.value)
     # after the loops: normalisation and shift only
     tail = b[b.index(outer) + 1:]
     if len(tail) != 3:
@@ -241,7 +265,7 @@ def _read_icosphere(fn):
     return dict(verts=verts, tris=tris, first_new=first_new, mids=mids, kids=kids)
 
 
-def _read_center_fan(fn, what, radius_expr):
+def _read_center_fan(fn, holes, what, radius_expr):
     """make_tetrahedral_sphere / _ellipsoid: tetrahedra = hstack(triangles, centre id)."""
     b = _body(fn)
     _same(_assign_to(b, "center_idx", what), "center_idx = len(vertices)", what)
@@ -256,7 +280,7 @@ def _read_center_fan(fn, what, radius_expr):
 
 
 # ------------------------------------------------------------------ cube
-def _read_cube(fn):
+def _read_cube(fn, holes):
     what = "make_tetrahedral_cube"
     b = _body(fn)
     if len(b) != 4:
@@ -266,16 +290,22 @@ def _read_cube(fn):
             and isinstance(va.value, ast.BinOp) and isinstance(va.value.op, ast.Mult)
             and _dump(va.value.left) == _dump(_expr("size"))):
         raise TablesError(f"{what}: expected vertices = size * np.array([...])")
-    verts = [[_num(e, what) for e in r] for r in _rows(_np_array_call(va.value.right, what), 3, what)]
+    vlist = _np_array_call(va.value.right, what)
+    holes.append(vlist)
+    verts = [[_num(e, what) for e in r] for r in _rows(vlist, 3, what)]
     ta = b[1]
     if not (isinstance(ta, ast.Assign) and _dump(ta.targets[0]) == _dump(_expr("tetrahedra"))):
         raise TablesError(f"{what}: expected tetrahedra = np.array([...], dtype=int)")
-    tets = [[_nat(_num(e, what), what) for e in r] for r in _rows(_np_array_call(ta.value, what, dtype="int"), 4, what)]
+    tlist = _np_array_call(ta.value, what, dtype="int")
+    holes.append(tlist)
+    tets = [[_nat(_num(e, what), what) for e in r] for r in _rows(tlist, 4, what)]
     pa = b[2]
     if not (isinstance(pa, ast.Assign) and _dump(pa.targets[0]) == _dump(_expr("potentials"))):
         raise TablesError(f"{what}: expected potentials = np.array([...], dtype=float)")
     pots = []
-    for e in _np_array_call(pa.value, what, dtype="float").elts:
+    plist = _np_array_call(pa.value, what, dtype="float")
+    holes.append(plist)
+    for e in plist.elts:
         if _dump(e) == _dump(_expr("size / 2.0")):
             pots.append("CPhalfsize")
         elif isinstance(e, ast.Constant) and isinstance(e.value, float) and e.value == 0.0:
@@ -289,7 +319,7 @@ def _read_cube(fn):
 
 
 # ------------------------------------------------------------------ splitting helpers
-def _read_split(fn, nargs, with_filter):
+def _read_split(fn, holes, nargs, with_filter):
     what = fn.name
     args = [a.arg for a in fn.args.args]
     if args != [f"v{i}" for i in range(nargs)] or fn.args.vararg or fn.args.kwarg or fn.args.kwonlyargs or fn.args.defaults:
@@ -327,12 +357,14 @@ def _read_split(fn, nargs, with_filter):
     f1, f2 = args.index(e[2].id), args.index(e[3].id)
     if with_filter:
         _same(guard, f"len({{previous, next, v{f1}, v{f2}}}) == 4", what)
+        holes += guard.left.args[0].elts[2:4]
     _same(b[3], "return elements", what)
+    holes += [b[1].value, loop.iter, e[2], e[3]]
     return dict(first=first, seq=seq, fix1=f1, fix2=f2, filt=with_filter)
 
 
 # ------------------------------------------------------------------ box
-def _read_box(fn):
+def _read_box(fn, holes):
     what = "make_tetrahedral_box"
     b = _body(fn)
     tol = _assign_to(b, "relative_tolerance", what)
@@ -340,6 +372,7 @@ def _read_box(fn):
             and _dump(tol.value.right) == _dump(_expr("max(1.0, min_half_size)"))):
         raise TablesError(f"{what}: expected relative_tolerance = <literal> * max(1.0, min_half_size)")
     tol_lit = _dyadic(_num(tol.value.left, what), what)
+    holes.append(tol.value.left)
     _same(_assign_to(b, "half_size", what), "half_size = 0.5 * size", what)
     _same(_assign_to(b, "min_half_size", what), "min_half_size = min(half_size)", what)
     _same(_assign_to(b, "half_central", what), "half_central = half_size - min_half_size", what)
@@ -366,6 +399,7 @@ def _read_box(fn):
                     raise TablesError(f"{what}: grid index out of range in `{ast.unparse(a)}`")
                 row.append(("BM" if a.value.id == "m" else "BV", ijk))
             faces.append(row)
+            holes += c.args
             if first_ext is None:
                 first_ext = idx
     if len(faces) != 6:
@@ -382,6 +416,7 @@ def _read_box(fn):
             and pm.targets[0].slice.step is None and _dump(pm.value) == _dump(_expr("min_half_size"))):
         raise TablesError(f"{what}: expected potentials[<k>:] = min_half_size")
     n_corner = _nat(_num(pm.targets[0].slice.lower, what), what)
+    holes.append(pm.targets[0].slice.lower)
     _same(b[first_ext + 9], "return mesh_vertices, mesh_elements, potentials", what)
     if len(b) != first_ext + 10:
         raise TablesError(f"{what}: unexpected trailing statements")
@@ -423,7 +458,7 @@ def _elem_stmt(s, atom, what, prefix):
     raise TablesError(f"{what}: unexpected statement `{ast.unparse(s)}`")
 
 
-def _read_cyl_class(fn):
+def _read_cyl_class(fn, holes):
     what = fn.name
     b = _body(fn)
     loops = [s for s in b if isinstance(s, ast.For)]
@@ -440,6 +475,7 @@ def _read_cyl_class(fn):
         raise TablesError(f"{what}: unexpected statements after the sector loop")
     _same(loop.body[-1], "i = j", what)
     elems = [_elem_stmt(s, _catom, what, "CE") for s in loop.body[:-1]]
+    holes += loop.body[:-1]
     # the statements before the loop must not touch mesh_elements / i / j
     bad = set(_assigned_names(b[:k - 2])) & {"mesh_elements", "j", "n_vertices_per_circle", "bottom", "top",
                                               "bottom_center", "top_center"}
@@ -448,7 +484,7 @@ def _read_cyl_class(fn):
     return elems
 
 
-def _read_cylinder(fn):
+def _read_cylinder(fn, holes):
     what = "make_tetrahedral_cylinder"
     b = _body(fn)
     tol = _assign_to(b, "tolerance", what)
@@ -456,6 +492,7 @@ def _read_cylinder(fn):
             and _dump(tol.value.right) == _dump(_expr("max(1.0, min(top_z, radius))"))):
         raise TablesError(f"{what}: expected tolerance = <literal> * max(1.0, min(top_z, radius))")
     lit = _dyadic(_num(tol.value.left, what), what)
+    holes.append(tol.value.left)
     _same(_assign_to(b, "top_z", what), "top_z = 0.5 * length", what)
     _same(_assign_to(b, "bottom_z", what), "bottom_z = -top_z", what)
     _same(_assign_to(b, "n_vertices_per_circle", what),
@@ -484,7 +521,7 @@ def _katom(node, what):
     raise TablesError(f"{what}: unexpected vertex expression `{s}`")
 
 
-def _read_capsule(fn):
+def _read_capsule(fn, holes):
     what = "make_tetrahedral_capsule"
     b = _body(fn)
     _same(_assign_to(b, "n_vertices_per_circle", what),
@@ -505,11 +542,13 @@ def _read_capsule(fn):
     _same(inner.iter, "range(n_vertices_per_circle)", what)
     _same(inner.body[0], "j1 = (j + 1) % n_vertices_per_circle", what)
     cap_elems = [_elem_stmt(s, _katom, what, "KE") for s in inner.body[1:]]
+    holes += inner.body[1:]
     if not (isinstance(barrel, ast.For) and _dump(barrel.target) == _dump(_expr("j")) and not barrel.orelse):
         raise TablesError(f"{what}: expected the barrel loop")
     _same(barrel.iter, "range(n_vertices_per_circle)", what)
     _same(barrel.body[0], "j1 = (j + 1) % n_vertices_per_circle", what)
     barrel_elems = [_elem_stmt(s, _katom, what, "KE") for s in barrel.body[1:]]
+    holes += barrel.body[1:]
     _same(b[k + 4], "potentials = np.zeros(len(mesh_vertices))", what)
     _same(b[k + 5], "potentials[:2] = radius", what)
     if len(b) != k + 7 or not isinstance(b[k + 6], ast.Return):
@@ -518,33 +557,408 @@ def _read_capsule(fn):
 
 
 # ------------------------------------------------------------------ driver
+# function of the source -> (reader, extra arguments, definitions of coq/theories/Model/TetMesh.v that transliterate it)
+READERS = {
+    "make_triangular_icosphere": (_read_icosphere, (),
+                                  "Model/TetMesh.v ico_topology / add_mid_point / sub_tri / ico_n_vertices / ico_base / "
+                                  "ico_raw_vertices / ico_normalize / icosphere_vertices"),
+    "make_tetrahedral_sphere": (_read_center_fan, ("make_tetrahedral_sphere", "radius"),
+                                "Model/TetMesh.v sphere_mesh / ico_tets / last_pot"),
+    "make_tetrahedral_ellipsoid": (_read_center_fan, ("make_tetrahedral_ellipsoid", "min(radii)"),
+                                   "Model/TetMesh.v ellipsoid_mesh / ico_tets / last_pot"),
+    "make_tetrahedral_cube": (_read_cube, (), "Model/TetMesh.v cube_mesh"),
+    "make_tetrahedral_box": (_read_box, (),
+                             "Model/TetMesh.v box_mesh / box_central / box_core / box_corner_step / box_medial_step / bgrid_id"),
+    "_split_to_tetrahedra": (_read_split, (8, True), "Model/TetMesh.v split_hex (split / split_loop / distinct4)"),
+    "make_tetrahedral_cylinder": (_read_cylinder, (),
+                                  "Model/TetMesh.v cyl_classify / cyl_outer_verts / cyl_rim_xy / cyl_mesh_rim / catom_id"),
+    "_calc_long_cylinder_volume_mesh_with_ma": (_read_cyl_class, (),
+                                                "Model/TetMesh.v cyl_mesh_rim (Long arm) / catom_id / sector_pairs / cyl_elements"),
+    "_calc_medium_cylinder_volume_mesh_with_ma": (_read_cyl_class, (),
+                                                  "Model/TetMesh.v cyl_mesh_rim (Medium arm) / catom_id / sector_pairs / cyl_elements"),
+    "_calc_short_cylinder_volume_mesh_with_ma": (_read_cyl_class, (),
+                                                 "Model/TetMesh.v cyl_mesh_rim (Short arm) / catom_id / sector_pairs / cyl_elements"),
+    "_split_triangular_prism_to_tetrahedra": (_read_split, (6, False), "Model/TetMesh.v split_prism (split / split_loop)"),
+    "_split_pyramid_to_tetrahedra": (_read_split, (5, False), "Model/TetMesh.v split_pyramid (split / split_loop)"),
+    "make_tetrahedral_capsule": (_read_capsule, (),
+                                 "Model/TetMesh.v capsule_verts / katom_id / kelem_tets / capsule_elements / capsule_mesh"),
+}
+KEY = {"make_triangular_icosphere": "ico", "make_tetrahedral_cube": "cube", "make_tetrahedral_box": "box",
+       "_split_to_tetrahedra": "hex", "_split_triangular_prism_to_tetrahedra": "prism",
+       "_split_pyramid_to_tetrahedra": "pyramid", "make_tetrahedral_cylinder": "cyl",
+       "_calc_long_cylinder_volume_mesh_with_ma": "cyl_long", "_calc_medium_cylinder_volume_mesh_with_ma": "cyl_medium",
+       "_calc_short_cylinder_volume_mesh_with_ma": "cyl_short", "make_tetrahedral_capsule": "capsule"}
+CLASSES = {"CylinderClass": "Model/TetMesh.v cyl_class (three distinct classes compared with ==)"}
+IMPORTS = ["import enum", "import math", "import numpy as np"]
+
+# The code that Model/TetMesh.v transliterates, normalised (no docstrings / comments; `__TABLE__` stands for a literal
+# table or table-like statement block that is re-read as data into Gen/TetTables.v and re-proved on every run).
+# Everything else in these functions is hard-coded in the model (array sizes, loop nests, class dispatch, vertex id
+# arithmetic such as `2 + 2n`, the order of the appends ...): the current source must be equal to this text after the
+# same normalisation, otherwise the reader refuses it.  Regenerate with
+#   /venv/bin/python -m harness.tables_c17 --print-reference      (and re-audit Model/TetMesh.v against the new text!)
+REFERENCE = r"""
+def make_triangular_icosphere(center, radius, order=4):
+    f = (1 + 5 ** 0.5) / 2
+    vertices = np.zeros((10 * 4 ** order + 2, 3))
+    vertices[:12] = np.array(__TABLE__)
+    triangles = np.array(__TABLE__, dtype=int)
+    v = __TABLE__
+    mid_cache = dict()
+
+    def add_mid_point(a, b, mid_cache, v):
+        key = math.floor((a + b) * (a + b + 1) / 2) + min(a, b)
+        i = mid_cache.get(key, None)
+        if i is not None:
+            del mid_cache[key]
+            return (i, v)
+        mid_cache[key] = v
+        vertices[v] = 0.5 * (vertices[a] + vertices[b])
+        i = v
+        v += 1
+        return (i, v)
+    triangles_prev = triangles
+    for _ in range(order):
+        triangles = np.empty((4 * triangles.shape[0], triangles.shape[1]), dtype=int)
+        for k, triangle in enumerate(triangles_prev):
+            v1, v2, v3 = triangle
+            a, v = add_mid_point(__TABLE__, __TABLE__, mid_cache, v)
+            b, v = add_mid_point(__TABLE__, __TABLE__, mid_cache, v)
+            c, v = add_mid_point(__TABLE__, __TABLE__, mid_cache, v)
+            t = k * 4
+            triangles[t] = __TABLE__
+            triangles[t + 1] = __TABLE__
+            triangles[t + 2] = __TABLE__
+            triangles[t + 3] = __TABLE__
+        triangles_prev = triangles
+    vertices /= 1.0 / radius * np.linalg.norm(vertices, axis=1)[:, np.newaxis]
+    vertices += center[np.newaxis]
+    return (vertices, triangles)
+
+
+def make_tetrahedral_sphere(radius, order=4):
+    vertices, triangles = make_triangular_icosphere(np.zeros(3), radius, order)
+    center_idx = len(vertices)
+    vertices = np.vstack((vertices, np.zeros((1, 3))))
+    tetrahedra = np.hstack((triangles, center_idx * np.ones((len(triangles), 1), dtype=int)))
+    potentials = np.zeros(len(vertices))
+    potentials[-1] = radius
+    return (vertices, tetrahedra, potentials)
+
+
+def make_tetrahedral_ellipsoid(radii, order=4):
+    vertices, triangles = make_triangular_icosphere(np.zeros(3), 1.0, order)
+    vertices *= radii[np.newaxis]
+    center_idx = len(vertices)
+    vertices = np.vstack((vertices, np.zeros((1, 3))))
+    tetrahedra = np.hstack((triangles, center_idx * np.ones((len(triangles), 1), dtype=int)))
+    potentials = np.zeros(len(vertices))
+    potentials[-1] = min(radii)
+    return (vertices, tetrahedra, potentials)
+
+
+def make_tetrahedral_cube(size):
+    vertices = size * np.array(__TABLE__)
+    tetrahedra = np.array(__TABLE__, dtype=int)
+    potentials = np.array(__TABLE__, dtype=float)
+    return (vertices, tetrahedra, potentials)
+
+
+def make_tetrahedral_box(size):
+    mesh_vertices = []
+    v = np.empty((2, 2, 2), dtype=float)
+    half_size = 0.5 * size
+    for i in range(2):
+        x = -half_size[0] if i == 0 else half_size[0]
+        for j in range(2):
+            y = -half_size[1] if j == 0 else half_size[1]
+            for k in range(2):
+                z = -half_size[2] if k == 0 else half_size[2]
+                v[i, j, k] = len(mesh_vertices)
+                mesh_vertices.append([x, y, z])
+    m = np.empty((2, 2, 2), dtype=float)
+    min_half_size = min(half_size)
+    relative_tolerance = __TABLE__ * max(1.0, min_half_size)
+    half_central = half_size - min_half_size
+    half_central[half_central <= relative_tolerance] = 0.0
+    for i in range(2):
+        x = -half_central[0] if i == 0 else half_central[0]
+        for j in range(2):
+            y = -half_central[1] if j == 0 else half_central[1]
+            for k in range(2):
+                z = -half_central[2] if k == 0 else half_central[2]
+                duplicate_in_i = i == 1 and half_central[0] == 0.0
+                duplicate_in_j = j == 1 and half_central[1] == 0.0
+                duplicate_in_k = k == 1 and half_central[2] == 0.0
+                if duplicate_in_i:
+                    m[i, j, k] = m[0, j, k]
+                elif duplicate_in_j:
+                    m[i, j, k] = m[i, 0, k]
+                elif duplicate_in_k:
+                    m[i, j, k] = m[i, j, 0]
+                else:
+                    m[i, j, k] = len(mesh_vertices)
+                if not duplicate_in_i and (not duplicate_in_j) and (not duplicate_in_k):
+                    mesh_vertices.append([x, y, z])
+    mesh_vertices = np.array(mesh_vertices)
+    assert len(mesh_vertices) <= 12
+    mesh_elements = []
+    mesh_elements.extend(_split_to_tetrahedra(__TABLE__, __TABLE__, __TABLE__, __TABLE__, __TABLE__, __TABLE__, __TABLE__, __TABLE__))
+    mesh_elements.extend(_split_to_tetrahedra(__TABLE__, __TABLE__, __TABLE__, __TABLE__, __TABLE__, __TABLE__, __TABLE__, __TABLE__))
+    mesh_elements.extend(_split_to_tetrahedra(__TABLE__, __TABLE__, __TABLE__, __TABLE__, __TABLE__, __TABLE__, __TABLE__, __TABLE__))
+    mesh_elements.extend(_split_to_tetrahedra(__TABLE__, __TABLE__, __TABLE__, __TABLE__, __TABLE__, __TABLE__, __TABLE__, __TABLE__))
+    mesh_elements.extend(_split_to_tetrahedra(__TABLE__, __TABLE__, __TABLE__, __TABLE__, __TABLE__, __TABLE__, __TABLE__, __TABLE__))
+    mesh_elements.extend(_split_to_tetrahedra(__TABLE__, __TABLE__, __TABLE__, __TABLE__, __TABLE__, __TABLE__, __TABLE__, __TABLE__))
+    mesh_elements = np.array(mesh_elements, dtype=int)
+    potentials = np.zeros(len(mesh_vertices))
+    potentials[__TABLE__:] = min_half_size
+    return (mesh_vertices, mesh_elements, potentials)
+
+
+def _split_to_tetrahedra(v0, v1, v2, v3, v4, v5, v6, v7):
+    elements = []
+    previous = __TABLE__
+    for next in __TABLE__:
+        if len({previous, next, __TABLE__, __TABLE__}) == 4:
+            elements.append([previous, next, __TABLE__, __TABLE__])
+        previous = next
+    return elements
+
+
+def make_tetrahedral_cylinder(radius, length, resolution_hint):
+    top_z = 0.5 * length
+    bottom_z = -top_z
+    tolerance = __TABLE__ * max(1.0, min(top_z, radius))
+    cylinder_class = CylinderClass.Medium
+    if top_z - radius > tolerance:
+        cylinder_class = CylinderClass.Long
+    elif radius - top_z > tolerance:
+        cylinder_class = CylinderClass.Short
+    n_vertices_per_circle = max(3, math.ceil(2.0 * np.pi * radius / resolution_hint))
+    mesh_vertices = []
+    bottom_center = len(mesh_vertices)
+    mesh_vertices.append(np.array([0.0, 0.0, bottom_z]))
+    top_center = len(mesh_vertices)
+    mesh_vertices.append(np.array([0.0, 0.0, top_z]))
+    bottom = []
+    top = []
+    angle_step = 2.0 * np.pi / n_vertices_per_circle
+    for i in range(n_vertices_per_circle):
+        x = radius * np.cos(angle_step * i)
+        y = radius * np.sin(angle_step * i)
+        bottom.append(len(mesh_vertices))
+        mesh_vertices.append(np.array([x, y, bottom_z]))
+        top.append(len(mesh_vertices))
+        mesh_vertices.append(np.array([x, y, top_z]))
+    n_outer_vertices = len(mesh_vertices)
+    potentials = [0.0] * n_outer_vertices
+    if cylinder_class == CylinderClass.Long:
+        mesh_elements = _calc_long_cylinder_volume_mesh_with_ma(radius, length, n_vertices_per_circle, bottom_center, bottom, top_center, top, mesh_vertices, potentials)
+    elif cylinder_class == CylinderClass.Medium:
+        mesh_elements = _calc_medium_cylinder_volume_mesh_with_ma(radius, n_vertices_per_circle, bottom_center, bottom, top_center, top, mesh_vertices, potentials)
+    else:
+        assert cylinder_class == CylinderClass.Short
+        mesh_elements = _calc_short_cylinder_volume_mesh_with_ma(radius, length, n_vertices_per_circle, bottom_center, bottom, top_center, top, mesh_vertices, potentials)
+    return (np.array(mesh_vertices), np.array(mesh_elements, dtype=int), np.array(potentials))
+
+
+class CylinderClass(enum.Enum):
+    Long = 0
+    Medium = 1
+    Short = 2
+
+
+def _calc_long_cylinder_volume_mesh_with_ma(radius, length, n_vertices_per_circle, bottom_center, bottom, top_center, top, mesh_vertices, potentials):
+    medial = []
+    offset_distance = radius
+    top_z = 0.5 * length
+    offset_top_z = top_z - offset_distance
+    offset_bottom_z = -offset_top_z
+    medial.append(len(mesh_vertices))
+    mesh_vertices.append(np.array([0.0, 0.0, offset_bottom_z]))
+    potentials.append(radius)
+    medial.append(len(mesh_vertices))
+    mesh_vertices.append(np.array([0.0, 0.0, offset_top_z]))
+    potentials.append(radius)
+    mesh_elements = []
+    i = n_vertices_per_circle - 1
+    for j in range(n_vertices_per_circle):
+        __TABLE__
+        i = j
+    return mesh_elements
+
+
+def _calc_medium_cylinder_volume_mesh_with_ma(radius, n_vertices_per_circle, bottom_center, bottom, top_center, top, mesh_vertices, potentials):
+    medial = len(mesh_vertices)
+    mesh_vertices.append(np.array([0.0, 0.0, 0.0]))
+    potentials.append(radius)
+    mesh_elements = []
+    i = n_vertices_per_circle - 1
+    for j in range(n_vertices_per_circle):
+        __TABLE__
+        i = j
+    return mesh_elements
+
+
+def _calc_short_cylinder_volume_mesh_with_ma(radius, length, n_vertices_per_circle, bottom_center, bottom, top_center, top, mesh_vertices, potentials):
+    center = len(mesh_vertices)
+    mesh_vertices.append(np.array([0.0, 0.0, 0.0]))
+    half_length = 0.5 * length
+    potentials.append(half_length)
+    medial = []
+    medial_radius = radius - half_length
+    scale_cylinder_radius_to_medial_circle = medial_radius / radius
+    for i in range(n_vertices_per_circle):
+        x = mesh_vertices[bottom[i]][0] * scale_cylinder_radius_to_medial_circle
+        y = mesh_vertices[bottom[i]][1] * scale_cylinder_radius_to_medial_circle
+        medial.append(len(mesh_vertices))
+        mesh_vertices.append(np.array([x, y, 0.0]))
+        potentials.append(half_length)
+    mesh_elements = []
+    i = n_vertices_per_circle - 1
+    for j in range(n_vertices_per_circle):
+        __TABLE__
+        i = j
+    return mesh_elements
+
+
+def _split_triangular_prism_to_tetrahedra(v0, v1, v2, v3, v4, v5):
+    elements = []
+    previous = __TABLE__
+    for next in __TABLE__:
+        elements.append([previous, next, __TABLE__, __TABLE__])
+        previous = next
+    return elements
+
+
+def _split_pyramid_to_tetrahedra(v0, v1, v2, v3, v4):
+    elements = []
+    previous = __TABLE__
+    for next in __TABLE__:
+        elements.append([previous, next, __TABLE__, __TABLE__])
+        previous = next
+    return elements
+
+
+def make_tetrahedral_capsule(radius, height, resolution_hint):
+    medial_top_z = 0.5 * height
+    medial_bottom_z = -medial_top_z
+    top_z = medial_top_z + radius
+    bottom_z = -top_z
+    n_vertices_per_circle = int(np.clip(2.0 * np.pi * radius / resolution_hint, 3.0, 706.0))
+    n_circles_per_cap = n_vertices_per_circle // 2
+    mesh_vertices = []
+    medial_top = len(mesh_vertices)
+    mesh_vertices.append(np.array([0.0, 0.0, medial_top_z]))
+    medial_bottom = len(mesh_vertices)
+    mesh_vertices.append(np.array([0.0, 0.0, medial_bottom_z]))
+    top = len(mesh_vertices)
+    mesh_vertices.append(np.array([0.0, 0.0, top_z]))
+    bottom = len(mesh_vertices)
+    mesh_vertices.append(np.array([0.0, 0.0, bottom_z]))
+    top_cap = []
+    bottom_cap = []
+    theta_step = 0.5 * np.pi / n_circles_per_cap
+    phi_step = 2.0 * np.pi / n_vertices_per_circle
+    for i in range(n_circles_per_cap):
+        theta = 0.5 * np.pi - i * theta_step
+        s = np.sin(theta)
+        top_circle_z = radius * np.cos(theta) + medial_top_z
+        bottom_circle_z = -top_circle_z
+        for j in range(n_vertices_per_circle):
+            phi = j * phi_step
+            x = radius * s * np.cos(phi)
+            y = radius * s * np.sin(phi)
+            top_cap.append(len(mesh_vertices))
+            mesh_vertices.append(np.array([x, y, top_circle_z]))
+            bottom_cap.append(len(mesh_vertices))
+            mesh_vertices.append(np.array([x, y, bottom_circle_z]))
+    mesh_elements = []
+    for i in range(n_circles_per_cap - 1):
+        for j in range(n_vertices_per_circle):
+            j1 = (j + 1) % n_vertices_per_circle
+            __TABLE__
+    last_circle_offset = (n_circles_per_cap - 1) * n_vertices_per_circle
+    for j in range(n_vertices_per_circle):
+        j1 = (j + 1) % n_vertices_per_circle
+        __TABLE__
+    potentials = np.zeros(len(mesh_vertices))
+    potentials[:2] = radius
+    return (np.array(mesh_vertices), np.array(mesh_elements, dtype=int), potentials)
+"""
+
+
+def _holed(tree):
+    """-> ({key: data}, {name: (node, holes)}) for every modelled function of the module."""
+    fns = _funcs(tree)
+    missing = [n for n in READERS if n not in fns]
+    if missing:
+        raise TablesError(f"functions not found: {missing}")
+    t, nodes = {}, {}
+    for name, (reader, extra, _model) in READERS.items():
+        holes = []
+        data = reader(fns[name], holes, *extra)
+        if name in KEY:
+            t[KEY[name]] = data
+        nodes[name] = (fns[name], holes)
+    return t, nodes
+
+
+def _check_module(tree, nodes):
+    """The module consists of the three imports, the modelled functions and CylinderClass - nothing else, each bound once."""
+    classes = {}
+    for st in tree.body:
+        if isinstance(st, ast.FunctionDef):
+            if st.name not in READERS:
+                raise TablesError(f"unmodelled top-level function `{st.name}` (a new helper may shadow a builtin or be "
+                                  f"called from code the model does not see)")
+        elif isinstance(st, ast.ClassDef):
+            if st.name not in CLASSES or st.name in classes:
+                raise TablesError(f"unexpected top-level class `{st.name}`")
+            classes[st.name] = st
+        elif isinstance(st, (ast.Import, ast.ImportFrom)):
+            if ast.unparse(st) not in IMPORTS:
+                raise TablesError(f"unexpected import `{ast.unparse(st)}`")
+        elif isinstance(st, ast.Expr) and isinstance(st.value, ast.Constant):
+            continue        # module docstring / stray constant: does nothing
+        else:
+            raise TablesError(f"unexpected top-level statement `{ast.unparse(st)[:80]}`")
+    if sorted(classes) != sorted(CLASSES):
+        raise TablesError(f"classes {sorted(classes)}, expected {sorted(CLASSES)}")
+    binds = tp.top_level_bindings(tree)
+    for nm in list(READERS) + list(CLASSES) + ["enum", "math", "np"]:
+        if binds.get(nm, 0) != 1:
+            raise TablesError(f"`{nm}` is bound {binds.get(nm, 0)} times at module level, expected once")
+    if "*" in binds:
+        raise TablesError("star import")
+    ref = tp.parse_reference(REFERENCE)
+    if sorted(ref) != sorted(list(READERS) + list(CLASSES)):
+        raise TablesError("reader bug: REFERENCE does not list exactly the modelled functions")
+    for name, (node, holes) in nodes.items():
+        tp.pin(node, ref[name], name, READERS[name][2], holes)
+    for name, node in classes.items():
+        tp.pin(node, ref[name], name, CLASSES[name])
+
+
+@tp.closed
 def read_all(repo):
     path = Path(repo) / SRC
     tree = ast.parse(path.read_text())
-    fns = _funcs(tree)
-    need = ["make_triangular_icosphere", "make_tetrahedral_sphere", "make_tetrahedral_ellipsoid",
-            "make_tetrahedral_cube", "make_tetrahedral_box", "_split_to_tetrahedra",
-            "make_tetrahedral_cylinder", "_calc_long_cylinder_volume_mesh_with_ma",
-            "_calc_medium_cylinder_volume_mesh_with_ma", "_calc_short_cylinder_volume_mesh_with_ma",
-            "_split_triangular_prism_to_tetrahedra", "_split_pyramid_to_tetrahedra", "make_tetrahedral_capsule"]
-    missing = [n for n in need if n not in fns]
-    if missing:
-        raise TablesError(f"{path}: functions not found: {missing}")
-    t = {}
-    t["ico"] = _read_icosphere(fns["make_triangular_icosphere"])
-    _read_center_fan(fns["make_tetrahedral_sphere"], "make_tetrahedral_sphere", "radius")
-    _read_center_fan(fns["make_tetrahedral_ellipsoid"], "make_tetrahedral_ellipsoid", "min(radii)")
-    t["cube"] = _read_cube(fns["make_tetrahedral_cube"])
-    t["box"] = _read_box(fns["make_tetrahedral_box"])
-    t["hex"] = _read_split(fns["_split_to_tetrahedra"], 8, True)
-    t["prism"] = _read_split(fns["_split_triangular_prism_to_tetrahedra"], 6, False)
-    t["pyramid"] = _read_split(fns["_split_pyramid_to_tetrahedra"], 5, False)
-    t["cyl"] = _read_cylinder(fns["make_tetrahedral_cylinder"])
-    t["cyl_long"] = _read_cyl_class(fns["_calc_long_cylinder_volume_mesh_with_ma"])
-    t["cyl_medium"] = _read_cyl_class(fns["_calc_medium_cylinder_volume_mesh_with_ma"])
-    t["cyl_short"] = _read_cyl_class(fns["_calc_short_cylinder_volume_mesh_with_ma"])
-    t["capsule"] = _read_capsule(fns["make_tetrahedral_capsule"])
+    t, nodes = _holed(tree)
+    _check_module(tree, nodes)
     return t
+
+
+def print_reference(repo):
+    tree = ast.parse((Path(repo) / SRC).read_text())
+    _, nodes = _holed(tree)
+    out = []
+    for st in tree.body:
+        if isinstance(st, ast.FunctionDef) and st.name in nodes:
+            out.append(tp.text(tp.normalise(*nodes[st.name])))
+        elif isinstance(st, ast.ClassDef) and st.name in CLASSES:
+            out.append(tp.text(tp.normalise(st)))
+    return "\n\n\n".join(out)
 
 
 def _lst(items, per_line=4, indent="    "):
@@ -627,7 +1041,12 @@ def generate(repo, out):
 
 if __name__ == "__main__":
     import sys
-    sys.path.insert(0, str(Path(__file__).resolve().parent.parent))
     from harness.common import REPO, COQ
-    ch, _ = generate(REPO, COQ / "theories" / "Gen" / "TetTables.v")
-    print("changed" if ch else "unchanged")
+    if "--print-reference" in sys.argv:
+        print(print_reference(REPO))
+    elif "--check" in sys.argv:         # read only, write nothing
+        read_all(REPO)
+        print("ok")
+    else:
+        ch, _ = generate(REPO, COQ / "theories" / "Gen" / "TetTables.v")
+        print("changed" if ch else "unchanged")
